@@ -5,6 +5,7 @@ go 1.22
 require (
 	github.com/anishathalye/porcupine v1.3.0
 	github.com/facebookincubator/tacquito v0.0.0
+	github.com/prometheus/client_golang v1.13.0
 )
 
 require (
@@ -12,7 +13,6 @@ require (
 	github.com/cespare/xxhash/v2 v2.1.2 // indirect
 	github.com/golang/protobuf v1.5.2 // indirect
 	github.com/matttproud/golang_protobuf_extensions v1.0.1 // indirect
-	github.com/prometheus/client_golang v1.13.0 // indirect
 	github.com/prometheus/client_model v0.2.0 // indirect
 	github.com/prometheus/common v0.37.0 // indirect
 	github.com/prometheus/procfs v0.8.0 // indirect
